@@ -391,6 +391,11 @@ def midphase_part(run, n_desc, with_instances=True):
             foreign_ops_of_mine = any(o[0] == "schedule" or o[1] != jj for c in desc["callbacks"] if c["owner"] == tr["chan"] for o in c["ops"])
             if aimed or foreign_ops_of_mine:
                 continue
+            if desc["T0"] > 0 and any(o[0] == "schedule" for c in desc["callbacks"] for o in c["ops"]):
+                # hypothesis ticks_wf of the theorem: a callback may schedule only on ticks after track i got its id; here ticks run
+                # on the still empty timeline before the schedule calls.  Judged by the oracle and the model comparison only.
+                run.discard("C07_merge_cb instance not applicable: ticks before the tracks exist while a callback schedules (ticks_wf)")
+                continue
             sj = index[(di, tuple(order), "solo", jj)]
             if sj in bad or "driver_error" in results[sj]:
                 continue
